@@ -1,1 +1,17 @@
-PROP = {'suites': ['c02'], 'clauses': {1: 'a navigation (Location header or auto-submitted form) targeted a URI that is neither registered for the requesting client nor pushed by it'}, 'title': 'The authorization endpoint never redirects to an unvalidated URI', 'text': 'Theorems over the model: nav_target_authorize and nav_target_callback (for every store and request every navigation - success, policy failure, validation error - targets a URI registered for the client or the one stored in the pushed session being redeemed), stored_redirects_validated_clients_untouched (over ALL histories: every stored session carries a validated redirect URI and NO operation changes the registered clients, i.e. the set of redirect URIs - a rely/guarantee invariant proved for every handler), redirected_errors_have_validated_uri(+_par) (no validator builds a redirected error before the URI it would go to was validated), invalid_redirect_local. Correspondence: histories aimed at /authorize, the callback and /par with redirect_uri deviations (incl. URIs pushed as unregistered and later replayed in plain requests), all error-producing parameters, response modes and policy outcomes, under both storage flavours; navigation target (after undoing net/url re-encoding of known URIs), mode and parameters compared with the model; monitor on the implementation trace. The form_post document is read as markup (harness/htmldoc.go: tags, attributes, text; any element, attribute, second form or text outside the template\'s skeleton becomes the navigation target of the observation, which no client has registered); generated state values carry quotes, angle brackets and entities.', 'note': 'Theorems are about the hand-written model; redirect URIs are real strings compared exactly, but net/url parsing/printing, form_post HTML and JARM signing are modelled or handled by the projection. Request objects are covered by C07. Fixed defect D22 (11b1d50) was found by this property.', 'technique': 'Coq proof (per-request decision theorems by symbolic execution; rely/guarantee invariant over all histories) tied to the code by differential correspondence; monitor on implementation traces', 'design_ref': 'DESIGN.md section 6, C02'}
+PROP = {'suites': ['c02'],
+ 'clauses': {1: 'a navigation (Location header or auto-submitted form) targeted a URI that is neither registered for the requesting client nor pushed by it'},
+ 'title': 'The authorization endpoint never redirects to an unvalidated URI',
+ 'text': 'Theorems over the model: nav_target_authorize and nav_target_callback (for every store and request every navigation - success, policy failure, validation error - targets a URI registered '
+         'for the client or the one stored in the pushed session being redeemed), stored_redirects_validated_clients_untouched (over ALL histories: every stored session carries a validated redirect '
+         'URI and NO operation changes the registered clients, i.e. the set of redirect URIs - a rely/guarantee invariant proved for every handler), redirected_errors_have_validated_uri(+_par) (no '
+         'validator builds a redirected error before the URI it would go to was validated), invalid_redirect_local. Correspondence: histories aimed at /authorize, the callback and /par with '
+         'redirect_uri deviations (incl. URIs pushed as unregistered and later replayed in plain requests), all error-producing parameters, response modes and policy outcomes, under both storage '
+         'flavours; navigation target (after undoing net/url re-encoding of known URIs), mode and parameters compared with the model; monitor on the implementation trace. The form_post document is '
+         "read as markup (harness/htmldoc.go: tags, attributes, text; any element, attribute, second form or text outside the template's skeleton becomes the navigation target of the observation, "
+         'which no client has registered); generated state values carry quotes, angle brackets and entities. Deterministic scenario scenarioRedirectMatrix (shared with C03): registered URIs of a '
+         'client with three (plain, with query, ending in a slash) and their one-detail near misses at GET and POST, with a redirected error and under form_post.',
+ 'note': 'Theorems are about the hand-written model; redirect URIs are real strings compared exactly, but net/url parsing/printing, form_post HTML and JARM signing are modelled or handled by the '
+         'projection. Request objects are covered by C07. Fixed defect D22 (11b1d50) was found by this property.',
+ 'technique': 'Coq proof (per-request decision theorems by symbolic execution; rely/guarantee invariant over all histories) tied to the code by differential correspondence; monitor on implementation '
+              'traces',
+ 'design_ref': 'DESIGN.md section 6, C02'}
